@@ -87,6 +87,8 @@ def canon(s, mode):
     """Canonical form used for model-vs-implementation comparison."""
     if s is None:
         return "crash"
+    if s.startswith("panic"):
+        return "panic"
     if mode == "real":
         s = s.replace("err:io", "err:other")
     return s
